@@ -101,6 +101,9 @@ pub enum GenerateError {
     /// Object type has no known descriptor type mapping
     UnsupportedObjectType,
 
+    /// Global variable is not a resource so is not part of any argument buffer
+    UnboundGlobal,
+
     /// Intrinsic is not supported is the Metal target
     UnsupportedIntrinsic(&'static str),
 
